@@ -258,8 +258,50 @@ func TestC05(t *testing.T) {
 	}
 	rec.Exhaustive("operators x ordered pairs of representative operands x supply modes (see rule)")
 
+	// the same operator site evaluated several times with different operands (a
+	// per-site cache or leftover state shows up only on the second evaluation)
+	storable := []operand{}
+	for _, o := range ops {
+		if o.Var {
+			storable = append(storable, o)
+		}
+	}
+	check(rec, "operator-site-reuse", scale(6000, 3000000), func(rt *rapid.T) {
+		op := rapid.SampledFrom(c05BinOps).Draw(rt, "op")
+		n := rapid.IntRange(2, 5).Draw(rt, "nevals")
+		fun := ast.Func("fun", nil, ast.Block(ast.Return(ast.Num("1"))))
+		var body *ast.Node
+		if op == "&&" || op == "||" {
+			body = ast.Bin(op, ast.Id("pa"), ast.Id("pb"))
+		} else {
+			body = ast.Bin(op, ast.Id("pa"), ast.Id("pb"))
+		}
+		apply := ast.Func("ap", []string{"pa", "pb"}, ast.Block(ast.Return(body)))
+		var stmts []*ast.Node
+		var names []string
+		for k := 0; k < n; k++ {
+			var a, b *ast.Node
+			if rapid.Bool().Draw(rt, "fromgrid") {
+				oa := storable[rapid.IntRange(0, len(storable)-1).Draw(rt, "ga")]
+				ob := storable[rapid.IntRange(0, len(storable)-1).Draw(rt, "gb")]
+				a, b = oa.Lit(), ob.Lit()
+				names = append(names, oa.Name+" "+op+" "+ob.Name)
+			} else {
+				a, b = gen.ScalarExpr().Draw(rt, "a"), gen.ScalarExpr().Draw(rt, "b")
+				names = append(names, "random")
+			}
+			if (op == "~" || op == "!~") && rapid.IntRange(0, 2).Draw(rt, "regexrhs") > 0 {
+				b = ast.Regex(rapid.SampledFrom([]string{"a", "^b", "b$", "[0-9]", "(", "^$", "x|y", "."}).Draw(rt, "re"))
+			}
+			stmts = append(stmts, ast.ExprS(ast.Set(ast.Id("r"), ast.Call(ast.Id("ap"), a, b))))
+			stmts = append(stmts, c05Observe()...)
+		}
+		c := &DCase{Prog: ast.Prog(fun, apply, ast.Rule("BEGIN", nil, ast.Block(stmts...))), Tag: "site reuse: " + strings.Join(names, " ; ")}
+		runDiff(rec, rt, "operator", c, false, nil, "op:"+op, "site-reuse")
+	})
+
 	// random operands
-	check(rec, "operator-random", scale(20000, 150000), func(rt *rapid.T) {
+	check(rec, "operator-random", scale(20000, 20000000), func(rt *rapid.T) {
 		kind := rapid.SampledFrom([]string{"bin", "bin", "bin", "bin", "un", "is"}).Draw(rt, "kind")
 		va := gen.ScalarExpr().Draw(rt, "a")
 		a := &operand{Name: ast.Source(va), Kind: gen.KindOf(va), Lit: lit(va), Var: true}
